@@ -95,6 +95,7 @@ def run_one(ch, env):
     expected = cfg.live_parents()
     res = {"config": dict(cfg.describe(), workers=workers, cb_yields=nyield, n_expected=len(expected)),
            "extra": {"kind_" + cfg.kind: 1, "workers_%d" % workers: 1, "with_apex": int(cfg.apex is not None)}}
+    
 
     # serial control (no scheduler involved)
     rec = Recorder(None, 0)
@@ -116,8 +117,13 @@ def run_one(ch, env):
     rec = Recorder(sim, nyield)
     pyr = cfg.build()
 
+    twice = ch.draw(4, kind="walk_twice") == 3     # a Pyramid object may be walked again: same result expected
+
     def main():
         pyr.walk(rec, parallel=workers)
+        if twice:
+            sim.event("second-walk", 0, 0, 0)
+            pyr.walk(rec, parallel=workers)
 
     main_task = sim.run(main)
     common.sim_summary(sim, res)
@@ -132,11 +138,20 @@ def run_one(ch, env):
     if main_task.exc is not None:
         res["violation"] = viol(PROP, "walk-raised", "walk(parallel=%d) raised %r\n%s" % (workers, main_task.exc, main_task.exc_tb))
         return res
-    hist = [(e[2], Pos(e[3], e[4], e[5])) for e in sim.events]
-    v = check_history(cfg, hist, expected)
-    if v is not None:
-        res["violation"] = viol(PROP, v[0], "walk(parallel=%d): %s" % (workers, v[1]))
+    hists = [[]]
+    for e in sim.events:
+        if e[2] == "second-walk":
+            hists.append([])
+        else:
+            hists[-1].append((e[2], Pos(e[3], e[4], e[5])))
+    if twice and len(hists) != 2:
+        res["harness_error"] = "expected two walks, saw %d" % len(hists)
         return res
+    for k, hist in enumerate(hists):
+        v = check_history(cfg, hist, expected)
+        if v is not None:
+            res["violation"] = viol(PROP, v[0], "walk(parallel=%d)%s: %s" % (workers, " [second walk of the same Pyramid object]" if k else "", v[1]))
+            return res
     # same multiset as serial is implied (both equal the reference); worker exceptions are not expected
     if sim.stderr:
         res["violation"] = viol(PROP, "worker-traceback", "a worker printed a traceback: %s" % sim.stderr[0][-600:])
